@@ -529,7 +529,8 @@ func composerReplay(args []string) {
 	fl := parseFlags(args)
 	seed := int64(fl.int("seed", envInt("VERIF_SEED", 1)))
 	env := newComposerEnv(seed)
-	cache := &docCache{m: map[string]*cdocState{}}
+	sharedCache := &docCache{m: map[string]*cdocState{}}
+	privateStates := fl.bool("private-states")
 	col := newCollector("composer", fl.str("only", ""))
 	lines := make(chan []byte, 1024)
 
@@ -544,6 +545,11 @@ func composerReplay(args []string) {
 
 		go func() {
 			defer wg.Done()
+
+			cache := sharedCache
+			if privateStates {
+				cache = &docCache{m: map[string]*cdocState{}}
+			}
 
 			for line := range lines {
 				var ed cedge
@@ -609,7 +615,7 @@ func composerReplay(args []string) {
 
 	col.sum.Extra["applied"] = okN
 	col.sum.Extra["failed_lists"] = failN
-	col.sum.Extra["concrete_documents"] = len(cache.m)
+	col.sum.Extra["concrete_documents"] = len(sharedCache.m)
 	col.sum.Extra["seed"] = seed
 	col.finish()
 }
